@@ -69,10 +69,44 @@ def known_findings():
 # worker
 
 
-def run_one(prop, case, st):
-    """Run prop.check on a case.  Returns None or a Violation."""
+def _reset_interpretation_stack():
     try:
-        prop.check(case, st)
+        import funsor.interpretations as I
+        from funsor import interpreter
+
+        interpreter._STACK[:] = [I.reflect, I.eager]
+    except Exception:
+        pass
+
+
+class CaseTimeout(BaseException):
+    pass
+
+
+def _alarm(signum, frame):
+    raise CaseTimeout()
+
+
+def run_one(prop, case, st):
+    """Run prop.check on a case.  Returns None or a Violation.  A case that does not finish within
+    CASE_TIMEOUT seconds (non-terminating rewriting, huge term) is inconclusive: counted as a decline."""
+    import signal
+
+    signal.signal(signal.SIGALRM, _alarm)
+    signal.alarm(int(os.environ.get("VERIF_CASE_TIMEOUT", "30")))
+    try:
+        try:
+            prop.check(case, st)
+        finally:
+            signal.alarm(0)
+    except CaseTimeout:
+        st.decline("timeout(no verdict)")
+        _reset_interpretation_stack()
+        return None
+    except RecursionError:
+        st.decline("recursion-limit(no verdict)")
+        _reset_interpretation_stack()
+        return None
     except Violation as v:
         return v
     except Decline as d:
